@@ -4,22 +4,24 @@ package main
 // byte-level model Pandora.Model.C07 rests on (every identifier of this file carries the prefix `ammodec`):
 //
 //	components/providers/http/decoders/uri.go      how uriDecoder gets its lines (bufio.Scanner: only Scan/Err/Text, never
-//	                                               Buffer/Split => token limit bufio.MaxScanTokenSize, read from the
-//	                                               toolchain's bufio), the strings.* functions applied to a line, the
-//	                                               byte that marks a header line, the tag separator, the method given to
-//	                                               Ammo.Setup, where the ammo's header map comes from
+//	                                               Buffer/Split/Bytes => token limit bufio.MaxScanTokenSize, read from the
+//	                                               toolchain's bufio), the byte that marks a header line, the target/tag
+//	                                               separator, the method given to Ammo.Setup, where the ammo's header map
+//	                                               comes from (a clone of the accumulator)
 //	components/providers/http/decoders/uripost.go  the same for readBlock (bufio.Reader: which read method, which delimiter)
 //	components/providers/http/decoders/raw.go      the same for rawDecoder.Scan
 //	components/providers/http/decoders/jsonline.go the URL prefix, the json tags of `entity`
-//	components/providers/http/util/request.go      DecodeHeader: minimal length, brackets, separator, string functions
-//	components/providers/http/decoders/uripost     DecodeURI: separators, minimal number of parts, string functions
-//	components/providers/http/decoders/raw         DecodeHeader: separator, string functions
+//	components/providers/http/util/request.go      DecodeHeader: minimal length, brackets, separator
+//	components/providers/http/decoders/uripost     DecodeURI: separator, minimal number of parts
+//	components/providers/http/decoders/raw         DecodeHeader: separator
 //
-// The facts are sets (sorted, duplicates removed) or single constants, so that re-ordering independent statements,
-// renaming variables or moving code between these functions' bodies does not change the output, while another read
-// primitive (ReadLine, ReadBytes, ReadSlice, Peek …), another delimiter, a Scanner with a custom buffer, another trim
-// function, separator, bracket, length bound, method or URL prefix does.  lean/Pandora/Bridge/C07.lean proves that
-// the regenerated facts are the ones the model uses.
+// The facts are single constants or a classification of the SET of bufio methods used, so that re-ordering independent
+// statements, renaming variables, or replacing one strings function by an equivalent one (Split / SplitN, Cut / Index)
+// does not change the output, while another read primitive (ReadLine, ReadBytes, ReadSlice, Peek, Scanner.Bytes …),
+// another delimiter, a Scanner with a custom buffer or split function, another separator, bracket, length bound, method
+// or URL prefix does.  What the string helpers compute is covered by the differential run (incl. the exhaustive
+// enumeration of short files), not here.  lean/Pandora/Bridge/C07.lean proves that the regenerated facts are the ones
+// the model uses.
 
 import (
 	"bytes"
@@ -309,7 +311,9 @@ func ammodecShape(p *packages.Package, e ast.Expr) string {
 
 func ammodecReplaceIdent(s, name string) string {
 	var b strings.Builder
-	isId := func(c byte) bool { return c == '_' || c >= '0' && c <= '9' || c >= 'a' && c <= 'z' || c >= 'A' && c <= 'Z' }
+	isId := func(c byte) bool {
+		return c == '_' || c >= '0' && c <= '9' || c >= 'a' && c <= 'z' || c >= 'A' && c <= 'Z'
+	}
 	for i := 0; i < len(s); {
 		if strings.HasPrefix(s[i:], name) && (i == 0 || !isId(s[i-1])) && (i+len(name) == len(s) || !isId(s[i+len(name)])) {
 			b.WriteByte('_')
@@ -340,6 +344,23 @@ func ammodecCallArgs(calls []ammodecCall, name string, i int) []string {
 	for _, c := range calls {
 		if c.name == name && i < len(c.args) && c.args[i] != "" {
 			set[c.args[i]] = true
+		}
+	}
+	var xs []string
+	for k := range set {
+		xs = append(xs, k)
+	}
+	sort.Strings(xs)
+	return xs
+}
+
+// ammodecSepArgs: the distinct constant strings given as SECOND argument to any strings.* call (separators of Cut / Split /
+// SplitN / Join …): which of these functions is used does not matter, the separator does.
+func ammodecSepArgs(calls []ammodecCall) []string {
+	set := map[string]bool{}
+	for _, c := range calls {
+		if strings.HasPrefix(c.name, "strings.") && len(c.args) > 1 && strings.HasPrefix(c.args[1], "[") {
+			set[c.args[1]] = true
 		}
 	}
 	var xs []string
@@ -434,9 +455,8 @@ func ammodecExtra(t *tr) string {
 	w("/-- regenerated from `uri.go`: `uriDecoder.Scan` + `newURIDecoder` (methods called on the bufio.Scanner; token limit = bufio.MaxScanTokenSize) -/\n")
 	w("def uriReader : LineReader := %s\n\n", x.reader(p, "uriDecoder", scanLimit, []*ast.FuncDecl{uriScan, uriLine}, []*ast.FuncDecl{uriNew}))
 	uriCalls := ammodecCalls(p, uriLine)
-	w("/-- `uriDecoder.readLine`: strings / strconv functions applied to the line -/\ndef uriLineFuncs : List String := %s\n\n", ammodecStrFuncs(uriCalls))
 	w("/-- `uriDecoder.readLine`: `data[0] == …` (a header line) -/\ndef uriHeaderMark : Nat := %s\n\n", x.one(p, uriLine, "uri data[0] ==", ammodecCmpConsts(p, uriLine, "_[0]", token.EQL)))
-	w("/-- `uriDecoder.readLine`: separator of `strings.Cut(data, …)` between target and tag -/\ndef uriTagSep : List UInt8 := %s\n\n", x.one(p, uriLine, "uri strings.Cut separator", ammodecCallArgs(uriCalls, "strings.Cut", 1)))
+	w("/-- `uriDecoder.readLine`: separator of `strings.Cut(data, …)` between target and tag -/\ndef uriTagSep : List UInt8 := %s\n\n", x.one(p, uriLine, "uri target/tag separator", ammodecSepArgs(uriCalls)))
 	m, hi := x.setup(p, uriLine)
 	w("/-- `uriDecoder.readLine`: method given to `Ammo.Setup` -/\ndef uriMethod : List UInt8 := %s\n\n", m)
 	w("/-- `uriDecoder.readLine`: first value of the header map stored in the ammo -/\ndef uriHeaderInit : String := %q\n\n", ammodecReplaceIdent(hi, "commonHeader"))
@@ -450,8 +470,6 @@ func ammodecExtra(t *tr) string {
 	}
 	w("/-- regenerated from `uripost.go`: `uripostDecoder.Scan` + `readBlock` (methods called on the bufio.Reader) -/\n")
 	w("def uripostReader : LineReader := %s\n\n", x.reader(p, "uripostDecoder", scanLimit, []*ast.FuncDecl{upScan, upBlock}, []*ast.FuncDecl{upNew}))
-	upCalls := ammodecCalls(p, upBlock)
-	w("def uripostLineFuncs : List String := %s\n\n", ammodecStrFuncs(upCalls))
 	w("def uripostHeaderMark : Nat := %s\n\n", x.one(p, upBlock, "uripost data[0] ==", ammodecCmpConsts(p, upBlock, "_[0]", token.EQL)))
 	m, hi = x.setup(p, upBlock)
 	w("def uripostMethod : List UInt8 := %s\n\n", m)
@@ -466,7 +484,6 @@ func ammodecExtra(t *tr) string {
 	}
 	w("/-- regenerated from `raw.go`: `rawDecoder.Scan` -/\n")
 	w("def rawReader : LineReader := %s\n\n", x.reader(p, "rawDecoder", scanLimit, []*ast.FuncDecl{rawScan}, []*ast.FuncDecl{rawNew}))
-	w("def rawLineFuncs : List String := %s\n\n", ammodecStrFuncs(ammodecCalls(p, rawScan)))
 
 	// ---- util.DecodeHeader
 	if up := imp("github.com/yandex/pandora/components/providers/http/util"); up != nil {
@@ -475,21 +492,10 @@ func ammodecExtra(t *tr) string {
 			x.fail(up, nil, "util.DecodeHeader not found")
 		} else {
 			calls := ammodecCalls(up, fd)
-			w("/-- regenerated from `util/request.go` `DecodeHeader` -/\ndef hdrFuncs : List String := %s\n\n", ammodecStrFuncs(calls))
-			w("/-- `len(h) < …` -/\ndef hdrMinLen : Nat := %s\n\n", x.one(up, fd, "DecodeHeader len(h) <", ammodecCmpConsts(up, fd, "len(_)", token.LSS)))
+			w("/-- regenerated from `util/request.go` `DecodeHeader`: `len(h) < …` -/\ndef hdrMinLen : Nat := %s\n\n", x.one(up, fd, "DecodeHeader len(h) <", ammodecCmpConsts(up, fd, "len(_)", token.LSS)))
 			w("/-- `h[0] != …` -/\ndef hdrOpen : Nat := %s\n\n", x.one(up, fd, "DecodeHeader h[0] !=", ammodecCmpConsts(up, fd, "_[0]", token.NEQ)))
 			w("/-- `h[len(h)-1] != …` -/\ndef hdrClose : Nat := %s\n\n", x.one(up, fd, "DecodeHeader h[len(h)-1] !=", ammodecCmpConsts(up, fd, "_[len(_)-1]", token.NEQ)))
-			w("/-- separator of `strings.Cut(h, …)` -/\ndef hdrSep : List UInt8 := %s\n\n", x.one(up, fd, "DecodeHeader strings.Cut separator", ammodecCallArgs(calls, "strings.Cut", 1)))
-			// the slice that removes the brackets
-			var slices []string
-			ast.Inspect(fd.Body, func(n ast.Node) bool {
-				if se, ok := n.(*ast.SliceExpr); ok {
-					slices = append(slices, ammodecShape(up, se))
-				}
-				return true
-			})
-			sort.Strings(slices)
-			w("/-- slice expressions of `DecodeHeader` (variables written `_`) -/\ndef hdrSlices : List String := %s\n\n", ammodecLeanStrList(slices))
+			w("/-- separator of `strings.Cut(h, …)` -/\ndef hdrSep : List UInt8 := %s\n\n", x.one(up, fd, "DecodeHeader strings.Cut separator", ammodecSepArgs(calls)))
 		}
 	}
 
@@ -500,22 +506,8 @@ func ammodecExtra(t *tr) string {
 			x.fail(up, nil, "uripost.DecodeURI not found")
 		} else {
 			calls := ammodecCalls(up, fd)
-			w("/-- regenerated from `decoders/uripost/decoder.go` `DecodeURI` -/\ndef decodeURIFuncs : List String := %s\n\n", ammodecStrFuncs(calls))
-			w("def decodeURISplitSep : List UInt8 := %s\n\n", x.one(up, fd, "DecodeURI strings.Split separator", ammodecCallArgs(calls, "strings.Split", 1)))
-			w("def decodeURIJoinSep : List UInt8 := %s\n\n", x.one(up, fd, "DecodeURI strings.Join separator", ammodecCallArgs(calls, "strings.Join", 1)))
+			w("/-- regenerated from `decoders/uripost/decoder.go` `DecodeURI`: the separator given to strings.Split / Join -/\ndef decodeURISep : List UInt8 := %s\n\n", x.one(up, fd, "DecodeURI separator", ammodecSepArgs(calls)))
 			w("/-- `len(parts) < …` -/\ndef decodeURIMinParts : Nat := %s\n\n", x.one(up, fd, "DecodeURI len(parts) <", ammodecCmpConsts(up, fd, "len(_)", token.LSS)))
-			var idx []string
-			ast.Inspect(fd.Body, func(n ast.Node) bool {
-				switch e := n.(type) {
-				case *ast.IndexExpr:
-					idx = append(idx, ammodecShape(up, e))
-				case *ast.SliceExpr:
-					idx = append(idx, ammodecShape(up, e))
-				}
-				return true
-			})
-			sort.Strings(idx)
-			w("/-- index / slice expressions of `DecodeURI` (size, target, tag parts) -/\ndef decodeURIIndex : List String := %s\n\n", ammodecLeanStrList(idx))
 		}
 	}
 
@@ -526,8 +518,7 @@ func ammodecExtra(t *tr) string {
 			x.fail(rp, nil, "raw.DecodeHeader not found")
 		} else {
 			calls := ammodecCalls(rp, fd)
-			w("/-- regenerated from `decoders/raw/decoder.go` `DecodeHeader` -/\ndef rawHeaderFuncs : List String := %s\n\n", ammodecStrFuncs(calls))
-			w("def rawHeaderSep : List UInt8 := %s\n\n", x.one(rp, fd, "raw.DecodeHeader strings.Cut separator", ammodecCallArgs(calls, "strings.Cut", 1)))
+			w("/-- regenerated from `decoders/raw/decoder.go` `DecodeHeader`: separator between size and tag -/\ndef rawHeaderSep : List UInt8 := %s\n\n", x.one(rp, fd, "raw.DecodeHeader separator", ammodecSepArgs(calls)))
 		}
 	}
 
